@@ -26,6 +26,10 @@ type World struct {
 	Extra     map[string][]byte // initial values of some Keys
 	Rules     *genesis.Rules
 	nonce     uint64
+
+	// sponsors WITHOUT a balance entry in the genesis state (see cross.go); never picked by GenTx
+	Fresh          []codec.Address
+	FreshFactories []chain.AuthFactory
 }
 
 // LooseRules returns rules whose block limits never bind (properties about the
@@ -145,6 +149,9 @@ func (w *World) AllKeys() []string {
 		out = append(out, string(k))
 	}
 	for _, a := range w.Addrs {
+		out = append(out, m.balKey(a))
+	}
+	for _, a := range w.Fresh {
 		out = append(out, m.balKey(a))
 	}
 	return out
